@@ -649,6 +649,12 @@ find_value (const DBusString *str,
                   BUS_SET_OOM (error);
                   goto failed;
                 }
+
+              /* the backslash represented itself: the character after it is
+               * an ordinary unquoted character (it may end the value, open
+               * a quoted section or be another backslash) */
+              quote_char = '\0';
+              continue;
             }
 
           if (!_dbus_string_append_byte (value, *p))
